@@ -56,8 +56,9 @@ def run(ctx):
   for n in g.live_nodes():
     if n.kind == 'raise_stmt' and n.loops:
       lp = n.loops[-1]
-      if isinstance(lp, ast.For) and w.A in u(lp.iter) and w.posnames and ('len(%s)' % w.posnames) in u(lp.iter) \
-          and isinstance(lp.iter, ast.Subscript) and isinstance(lp.iter.slice, ast.Slice) and lp.iter.slice.upper is None:
+      if isinstance(lp, ast.For) and w.posnames and isinstance(lp.iter, ast.Subscript) and u(lp.iter.value) == w.A \
+          and isinstance(lp.iter.slice, ast.Slice) and lp.iter.slice.upper is None and lp.iter.slice.step is None \
+          and lp.iter.slice.lower is not None and u(lp.iter.slice.lower) == 'len(%s)' % w.posnames:
         if any(fct[0] == 'c' and fct[2] is True and fct[1] == '%s is %s' % (u(lp.target), REQ) for fct in facts[n.id]):
           vg.append((n, lp))
   ok = bool(vg)
